@@ -137,6 +137,22 @@ Theorem C05_peak_filling_public_safe : forall size sections half_win left_pad ri
 Proof. exact peak_filling_public_final. Qed.
 Print Assumptions C05_peak_filling_public_safe.
 
+(* peak_filling with `sections` given as a sequence: the data_len argument of the kernel call, translated from
+   the CURRENT source, is an ndarray, so the call ends in a Python exception (numba TypingError) before any
+   compiled code runs *)
+Theorem C05_peak_filling_sequence_rejected : pf_seq_data_len_is_int = false.
+Proof. exact peak_filling_sequence_rejected_final. Qed.
+Print Assumptions C05_peak_filling_sequence_rejected.
+
+(* whatever the source passes as data_len in the sequence branch: for EVERY number k of split indices and EVERY
+   number uniq of distinct entries of [0] + sections + [size] (repeats, 0 or size-1 inside the sequence make
+   uniq < k + 2) the kernel is either not entered or data_len is within [1, len(y_truncated)] *)
+Theorem C05_peak_filling_sequence_safe : forall k uniq size left_pad right_pad h (o : list bool),
+  0 <= k -> 2 <= uniq <= k + 2 -> 1 <= size -> 0 <= left_pad <= 1 -> 0 <= right_pad <= 1 -> 0 <= h ->
+  all_okb (logof (pf_seq_kernel_call k uniq size left_pad right_pad h o)) = true.
+Proof. exact peak_filling_sequence_final. Qed.
+Print Assumptions C05_peak_filling_sequence_safe.
+
 (* _padded_rolling_std padding => _rolling_std safe *)
 Theorem C05_rolling_std_public_safe : forall n half_window (o : list bool),
   1 <= n -> 0 <= half_window -> all_okb (logof (rolling_std_call n half_window o)) = true.
